@@ -345,6 +345,22 @@ Proof.
   intros Hs Ht Hp Ho. apply rel_sessions; auto; intros sid s; unfold get_sess; rewrite Hs; intros H; right; eauto.
 Qed.
 Ltac rel_ns := apply rel_nosess; reflexivity.
+(* peel the outermost table update off the state on the right *)
+Ltac peel :=
+  match goal with
+  | |- Rel _ _ (set_conns ?hh _) => apply rel_trans with hh; [|rel_ns]
+  | |- Rel _ _ (set_clients ?hh _) => apply rel_trans with hh; [|rel_ns]
+  | |- Rel _ _ (set_expired ?hh _) => apply rel_trans with hh; [|rel_ns]
+  | |- Rel _ _ (set_anonymous ?hh _) => apply rel_trans with hh; [|rel_ns]
+  | |- Rel _ _ (set_dialout ?hh _) => apply rel_trans with hh; [|rel_ns]
+  | |- Rel _ _ (set_rooms ?hh _) => apply rel_trans with hh; [|rel_ns]
+  | |- Rel _ _ (set_vtable ?hh _) => apply rel_trans with hh; [|rel_ns]
+  | |- Rel _ _ (set_clock ?hh _) => apply rel_trans with hh; [|rel_ns]
+  | |- Rel _ _ (set_bus ?hh _) => apply rel_trans with hh; [|rel_ns]
+  | |- Rel _ _ (set_nextsid ?hh _) => apply rel_trans with hh; [|rel_ns]
+  | |- Rel _ _ (set_counted ?hh _) => apply rel_trans with hh; [|rel_ns]
+  | |- Rel _ _ (publish ?hh _ _) => apply rel_trans with hh; [|rel_ns]
+  end.
 
 Lemma rel_put xs h sid s s1 : get_sess h sid = Some s -> mcore s1 = mcore s -> Rel xs h (put_sess h sid s1).
 Proof.
@@ -602,4 +618,292 @@ Lemma rel_fold_left {A} xs (f : hub -> A -> hub) l : forall h0 h,
 Proof.
   induction l as [|x l IH]; intros h0 h R Hf; cbn [fold_left]; [exact R|]. apply IH; [|exact Hf].
   eapply rel_trans; [exact R|apply Hf].
+Qed.
+
+(* ------------------------------------------------------------------ hello *)
+Lemma rel_register xs h c cn b k u : Rel xs h (fst (register h c cn b k u)).
+Proof.
+  unfold register. cbv zeta.
+  match goal with |- Rel _ _ (fst (if ?X then _ else _)) => destruct X end; [rel_ns|]. cbn [fst].
+  match goal with |- context [put_sess ?hh (next_id h) ?ss] => set (h1 := hh); set (ns := ss) end.
+  assert (R2 : Rel xs h (put_sess h1 (next_id h) ns)).
+  { eapply rel_trans with h1; [unfold h1; match goal with |- context [if ?X then _ else _] => destruct X end; rel_ns|].
+    apply rel_new; [|reflexivity].
+    unfold h1. match goal with |- context [if ?X then _ else _] => destruct X end; exact (next_id_fresh h). }
+  match goal with |- Rel _ _ (if ?X then _ else _) => destruct X end.
+  - eapply rel_trans; [exact R2|rel_ns].
+  - destruct k as [|f d|p v]; try (eapply rel_trans; [exact R2|rel_ns]).
+    destruct d; eapply rel_trans; try exact R2; rel_ns.
+Qed.
+
+Lemma send_bye_nosess h c r :
+  (forall cn, aget (h_conns h) c = Some cn -> c_sess cn = None) ->
+  let h' := fst (send_conn h c (SBye r)) in
+  h_sessions h' = h_sessions h /\ h_mcutok h' = h_mcutok h /\ h_mcupending h' = h_mcupending h /\ h_mcuopen h' = h_mcuopen h.
+Proof.
+  intros Hn. unfold send_conn. destruct (aget (h_conns h) c) as [cn|] eqn:Hc; [|repeat split; reflexivity].
+  cbn [is_closing]. unfold close_conn. rewrite Hc, (Hn cn eq_refl). repeat split; reflexivity.
+Qed.
+
+Lemma rel_do_hello xs h c cn hl : Rel xs h (fst (do_hello h c cn hl)).
+Proof.
+  unfold do_hello. destruct hl as [b u rej|b tok f d|i].
+  - destruct (h_nb h <=? b); [rel_ns|]. destruct rej; [rel_ns|].
+    destruct (register h c cn b KClient u) as [h1 o1] eqn:Hr. cbn [fst]. rewrite (fst_eq _ _ _ Hr). apply rel_register.
+  - destruct (throttled h (c_addr cn) ACT_INTERNAL); [rel_ns|].
+    destruct (negb (N.eqb tok 0)); [rel_ns|]. destruct (h_nb h <=? b); [rel_ns|]. apply rel_register.
+  - destruct (throttled h (c_addr cn) ACT_RESUME); [apply rel_refl|].
+    destruct i as [n|n|k|n]; try rel_ns.
+    destruct (get_sess h n) as [s|] eqn:Hs; [|apply rel_refl].
+    destruct (is_virtual (s_kind s)); [apply rel_refl|].
+    set (P := match s_conn s with
+              | Some c' => if N.eqb c' c then (h, [])
+                           else send_conn (match aget (h_conns h) c' with
+                                           | Some cn' => set_conns h (aset (h_conns h) c' (mkconn (c_addr cn') None (c_expect cn')))
+                                           | None => h end) c' (SBye B_session_resumed)
+              | None => (h, []) end).
+    assert (HP : h_sessions (fst P) = h_sessions h /\ h_mcutok (fst P) = h_mcutok h /\
+                 h_mcupending (fst P) = h_mcupending h /\ h_mcuopen (fst P) = h_mcuopen h).
+    { unfold P. destruct (s_conn s) as [c'|]; [|repeat split; reflexivity].
+      destruct (N.eqb c' c); [repeat split; reflexivity|].
+      destruct (aget (h_conns h) c') as [cn'|] eqn:Hc'.
+      - match goal with |- context [send_conn ?hh c' _] => destruct (send_bye_nosess hh c' B_session_resumed) as (A & B & C & D) end.
+        + intros cn0. hsimpl. rewrite aget_aset_same. intros H. injection H as <-. reflexivity.
+        + rewrite A, B, C, D. repeat split; reflexivity.
+      - apply send_bye_nosess. intros cn0 H. congruence. }
+    destruct P as [h1 outs1]. cbn [fst] in HP. destruct HP as (A & B & C & D). cbn [fst].
+    peel. peel. peel.
+    eapply rel_trans with h1; [now apply rel_nosess|].
+    apply rel_put with s; [unfold get_sess; now rewrite A|reflexivity].
+Qed.
+
+(* ------------------------------------------------------------------ joining *)
+Lemma rel_put_perms xs h sid s s1 :
+  get_sess h sid = Some s -> s_kind s1 = s_kind s -> s_pubs s1 = s_pubs s -> s_subs s1 = s_subs s ->
+  s_pubmedia s1 = s_pubmedia s -> (s_perms s1 = s_perms s \/ xs sid) -> Rel xs h (put_sess h sid s1).
+Proof.
+  intros Hs Hk Hp Hsu Hpm Hpe. constructor; try reflexivity; try apply incl_refl; auto.
+  - intros x sx. rewrite get_put. destruct (N.eqb_spec x sid) as [->|Hne]; intros H; right.
+    + injection H as <-. exists s, (fun _ => true). rewrite filter_true. repeat split; auto.
+    + exists sx, (fun _ => true). rewrite filter_true. repeat split; auto.
+  - intros tok x sx _ Hx Ht. rewrite get_put. destruct (N.eqb_spec x sid) as [->|Hne]; [|eauto].
+    rewrite Hs in Hx. injection Hx as <-. exists s1. split; [reflexivity|]. unfold toks in *. now rewrite Hp, Hsu.
+Qed.
+
+(* the sessions' room, kind and connection are the same in both states *)
+Definition score (h h' : hub) : Prop := forall x, option_map core (get_sess h' x) = option_map core (get_sess h x).
+Lemma score_refl h : score h h. Proof. intros x. reflexivity. Qed.
+Lemma score_trans h1 h2 h3 : score h1 h2 -> score h2 h3 -> score h1 h3.
+Proof. intros A B x. now rewrite B, A. Qed.
+Lemma score_equiv h h' : equiv h h' -> score h h'.
+Proof. intros E x. apply (eq_sess _ _ E). Qed.
+Lemma score_nosess h h' : h_sessions h' = h_sessions h -> score h h'.
+Proof. intros E x. unfold get_sess. now rewrite E. Qed.
+Lemma score_room h h' sid s k s' : score h h' -> get_sess h sid = Some s -> s_room s = Some k ->
+  get_sess h' sid = Some s' -> s_room s' = Some k.
+Proof.
+  intros S Hs Hk Hs'. specialize (S sid). rewrite Hs, Hs' in S. cbn in S. apply core_some_eq in S as (A & _). congruence.
+Qed.
+
+Section JoinRoom.
+  Context (xs : N -> Prop) (h : hub) (c sid : N) (k : N * N) (rs : N) (perms : option N) (su : N).
+
+  Lemma join_room_both :
+    (perms <> None -> xs sid) ->
+    Rel xs h (fst (join_room h c sid k rs perms su)) /\
+    (forall s', get_sess (fst (join_room h c sid k rs perms su)) sid = Some s' -> s_room s' = Some k).
+  Proof.
+    intros Hx. unfold join_room.
+    destruct (leave_room h sid true) as [h1 o1] eqn:Hl.
+    assert (R1 : Rel xs h h1) by (rewrite (fst_eq _ _ _ Hl); apply rel_leave_room).
+    destruct (get_sess h1 sid) as [s|] eqn:Hs; [|cbn [fst]; split; [exact R1|intros s' H; congruence]].
+    set (r := match room_of h1 k with Some x => x | None => empty_room end).
+    set (r' := mkroom (nadd sid (r_members r)) (r_incall r) (if N.eqb su 0 then r_sessdata r else aset (r_sessdata r) sid su) (r_transient r) (r_props r)).
+    set (s1 := upd_sess s (Some k) rs (s_conn s) (match perms with Some p => Some p | None => s_perms s end) (s_pending s) [] (h_clock h1)).
+    set (hA := put_sess (set_rooms h1 (pset (h_rooms h1) k r')) sid s1).
+    assert (RA : Rel xs h hA).
+    { eapply rel_trans; [exact R1|]. eapply rel_trans with (set_rooms h1 (pset (h_rooms h1) k r')); [rel_ns|].
+      apply rel_put_perms with s; try reflexivity; [exact Hs|].
+      destruct perms as [p|]; [right; apply Hx; discriminate|left; reflexivity]. }
+    assert (HsA : get_sess hA sid = Some s1) by (unfold hA; rewrite get_put, N.eqb_refl; reflexivity).
+    set (h2 := set_clock hA (h_clock h1 + 1)).
+    set (h3 := if N.eqb rs 0 then h2 else rs_set h2 sid rs).
+    assert (R3 : Rel xs h h3 /\ score hA h3).
+    { unfold h3. destruct (N.eqb rs 0).
+      - split; [eapply rel_trans; [exact RA|rel_ns]|apply score_nosess; reflexivity].
+      - split; [eapply rel_trans; [exact RA|]; eapply rel_trans with h2; [rel_ns|apply rel_rs_set]|].
+        apply score_nosess. rewrite rs_set_sessions. reflexivity. }
+    destruct R3 as [R3 S3].
+    set (h4 := set_anonymous h3 (nrem sid (h_anonymous h3))).
+    set (h5 := match s_kind s with KInternal _ true => set_dialout h4 (nrem sid (h_dialout h4)) | _ => h4 end).
+    assert (R5 : Rel xs h h5 /\ score hA h5).
+    { unfold h5. destruct (s_kind s) as [|f d|]; try (split; [eapply rel_trans; [exact R3|rel_ns]|eapply score_trans; [exact S3|apply score_nosess; reflexivity]]).
+      destruct d; (split; [eapply rel_trans; [exact R3|rel_ns]|eapply score_trans; [exact S3|apply score_nosess; reflexivity]]). }
+    destruct R5 as [R5 S5].
+    destruct (send_session h5 sid (SRoom (snd k))) as [h7 o2] eqn:Hsend. pose proof (fst_eq _ _ _ Hsend) as E7.
+    assert (R7 : Rel xs h h7) by (eapply rel_trans; [exact R5|rewrite E7; apply rel_send_session]).
+    assert (S7 : score hA h7).
+    { eapply score_trans; [exact S5|]. rewrite E7. apply score_equiv. now apply equiv_send_session. }
+    destruct (room_of h7 k).
+    2:{ cbn [fst]. split; [exact R7|]. intros s' Hs'. eapply (score_room hA h7); eauto. }
+    set (h9 := if nmem sid (r_members r) then h7 else publish h7 (SubjRoom (fst k) (snd k)) (ARoomEvent (SJoin [(sid, if N.eqb (s_user s) 0 then su else s_user s)]))).
+    assert (R9 : Rel xs h h9 /\ score hA h9).
+    { unfold h9. destruct (nmem sid (r_members r)); [auto|].
+      split; [eapply rel_trans; [exact R7|apply rel_publish]|eapply score_trans; [exact S7|apply score_nosess; reflexivity]]. }
+    destruct R9 as [R9 S9].
+    match goal with |- context [let '(h10, outs3) := ?X in _] => destruct X as [h10 o3] eqn:H10 end.
+    assert (R10 : Rel xs h h10 /\ score hA h10).
+    { destruct (nmem sid (r_members r)); [injection H10 as <- <-; auto|].
+      destruct (r_transient r); [injection H10 as <- <-; auto|].
+      rewrite (fst_eq _ _ _ H10). split; [eapply rel_trans; [exact R9|apply rel_send_session]|].
+      eapply score_trans; [exact S9|]. apply score_equiv. now apply equiv_send_session. }
+    destruct R10 as [R10 S10]. cbn [fst].
+    split; [eapply rel_trans; [exact R10|apply rel_publish]|].
+    intros s' Hs'. eapply (score_room hA); [|exact HsA|reflexivity|exact Hs'].
+    eapply score_trans; [exact S10|apply score_nosess; reflexivity].
+  Qed.
+End JoinRoom.
+
+Lemma rel_join_room (xs : N -> Prop) h c sid k rs perms su :
+  (perms <> None -> xs sid) -> Rel xs h (fst (join_room h c sid k rs perms su)).
+Proof. intros Hx. now apply join_room_both. Qed.
+Lemma join_room_room h c sid k rs perms su s' :
+  get_sess (fst (join_room h c sid k rs perms su)) sid = Some s' -> s_room s' = Some k.
+Proof. apply (join_room_both (fun _ => True)). auto. Qed.
+
+Lemma rel_kick xs h rs : Rel xs h (fst (kick_room_session h rs)).
+Proof.
+  unfold kick_room_session. destruct (aget (h_rs2 h) rs) as [sid'|]; [|apply rel_refl].
+  destruct (get_sess h sid') as [s'|]; [|rel_ns].
+  destruct (leave_room h sid' false) as [h1 o1] eqn:Hl.
+  assert (R1 : Rel xs h h1) by (rewrite (fst_eq _ _ _ Hl); apply rel_leave_room).
+  match goal with |- context [let '(h2, outs2) := ?X in _] => destruct X as [h2 o2] eqn:H2 end.
+  assert (R2 : Rel xs h h2).
+  { destruct (s_kind s') as [| |p v]; destruct (s_conn s') as [c'|];
+      try (injection H2 as <- <-; exact R1); rewrite (fst_eq _ _ _ H2); (eapply rel_trans; [exact R1|apply rel_send_conn]). }
+  destruct (close_session h2 sid') as [h3 o3] eqn:H3. cbn [fst]. rewrite (fst_eq _ _ _ H3).
+  eapply rel_trans; [exact R2|apply rel_close_session].
+Qed.
+
+(* the join request whose reply sets new permissions *)
+Definition join_sets_perms (h : hub) (sid : N) (s : session) (rn : N) (rep : roomreply) : Prop :=
+  rn <> 0 /\ is_internal (s_kind s) = false /\
+  (match room_of h (s_backend s, rn) with Some r => nmem sid (r_members r) | None => false end) = false /\
+  exists p su, rep = RepOk (Some p) su.
+
+Lemma do_join_both h c sid s rn rs rep :
+  get_sess h sid = Some s ->
+  Rel (fun x => x = sid /\ join_sets_perms h sid s rn rep) h (fst (do_join h c sid s rn rs rep)) /\
+  (join_sets_perms h sid s rn rep ->
+   forall s1, get_sess (fst (do_join h c sid s rn rs rep)) sid = Some s1 -> s_room s1 = Some (s_backend s, rn)).
+Proof.
+  intros Hs. unfold join_sets_perms. set (xs := fun x : N => _). unfold do_join. destruct (N.eqb_spec rn 0) as [->|Hrn].
+  - split; [|intros [H _]; now contradiction H].
+    destruct (s_room s); [|apply rel_refl].
+    destruct (leave_room h sid true) as [h1 o1] eqn:Hl.
+    destruct (send_session h1 sid (SRoom 0)) as [h2 o2] eqn:H2. cbn [fst].
+    assert (R1 : Rel xs h h1) by (rewrite (fst_eq _ _ _ Hl); apply rel_leave_room).
+    assert (R2 : Rel xs h h2) by (eapply rel_trans; [exact R1|]; rewrite (fst_eq _ _ _ H2); apply rel_send_session).
+    destruct (N.eqb (s_user s) 0 && negb (is_internal (s_kind s))); [|exact R2]. eapply rel_trans; [exact R2|rel_ns].
+  - set (k := (s_backend s, rn)). set (rsv := if N.eqb rs 0 then 0 else 1000000 + rs).
+    destruct (match room_of h k with Some r => nmem sid (r_members r) | None => false end) eqn:Hin.
+    + split; [|intros (_ & _ & H & _); discriminate].
+      set (newrs := if N.eqb rs 0 then 2000000 + sid else rsv).
+      set (h1 := if N.eqb (s_rs s) newrs then h else put_sess (rs_set h sid newrs) sid (sess_rs s newrs)).
+      assert (R1 : Rel xs h h1).
+      { unfold h1. destruct (N.eqb (s_rs s) newrs); [apply rel_refl|].
+        eapply rel_trans; [apply rel_rs_set|]. apply rel_put with s; [|reflexivity].
+        unfold get_sess. rewrite rs_set_sessions. exact Hs. }
+      destruct (send_session h1 sid (SError E_already_joined)) as [h2 o2] eqn:H2. cbn [fst].
+      rewrite (fst_eq _ _ _ H2). eapply rel_trans; [exact R1|apply rel_send_session].
+    + destruct (is_internal (s_kind s)) eqn:Hint.
+      { split; [apply rel_join_room; intros H; now contradiction H|]. intros (_ & H & _). discriminate. }
+      match goal with |- context [let '(h1, outs1) := ?X in _] => destruct X as [h1 o1] eqn:H1 end.
+      assert (R1 : Rel xs h h1).
+      { destruct (N.eqb rs 0 || N.eqb (s_rs s) rsv); [injection H1 as <- <-; apply rel_refl|].
+        rewrite (fst_eq _ _ _ H1). apply rel_kick. }
+      destruct (get_sess h1 sid) eqn:Hs1.
+      2:{ cbn [fst]. split; [exact R1|]. intros _ s1 H. congruence. }
+      destruct rep as [perms su|code].
+      * destruct (join_room h1 c sid k rsv perms su) as [h2 o2] eqn:H2. cbn [fst]. rewrite (fst_eq _ _ _ H2).
+        split; [|intros _ s1; apply join_room_room].
+        eapply rel_trans; [exact R1|]. apply rel_join_room. intros Hp. unfold xs. split; [reflexivity|].
+        repeat split; auto. destruct perms as [p|]; [eauto|now contradiction Hp].
+      * destruct (send_session h1 sid (SError code)) as [h2 o2] eqn:H2. cbn [fst]. rewrite (fst_eq _ _ _ H2).
+        split; [eapply rel_trans; [exact R1|apply rel_send_session]|]. intros (_ & _ & _ & p & su0 & H). discriminate.
+Qed.
+
+(* ------------------------------------------------------------------ messages, rooms, the bus *)
+Lemma rel_do_message xs h sid s kindn to tag cb : Rel xs h (fst (do_message h sid s kindn to tag cb)).
+Proof.
+  unfold do_message. destruct to as [i|u| |].
+  - destruct i as [n|n|k|n]; try rel_ns.
+    destruct (get_sess h n) as [t|]; [|rel_ns].
+    destruct (cb && negb (N.eqb (s_backend t) (s_backend s))); [apply rel_refl|].
+    destruct (N.eqb n sid); [apply rel_refl|].
+    destruct (s_kind t); apply rel_send_session.
+  - destruct (N.eqb u 0); [apply rel_refl|]. destruct (N.eqb u (sess_userid h sid s)); [apply rel_refl|]. rel_ns.
+  - destruct (s_room s); [rel_ns|apply rel_refl].
+  - destruct (s_room s); [rel_ns|apply rel_refl].
+Qed.
+
+Lemma rel_recv_event xs h sid m sender co re t : Rel xs h (fst (recv_event h sid m sender co re t)).
+Proof.
+  unfold recv_event. destruct (get_sess h sid) as [s|]; [|apply rel_refl].
+  destruct (N.eqb sender sid && negb (N.eqb sender 0)); [apply rel_refl|].
+  destruct (co && negb (in_call h sid s)); [apply rel_refl|].
+  match goal with |- context [if ?c then _ else _] => destruct c end; [apply rel_refl|]. apply rel_send_session.
+Qed.
+
+Lemma rel_set_incall xs h k sid on : Rel xs h (set_incall h k sid on).
+Proof.
+  unfold set_incall. destruct (room_of h k) as [r|]; [|apply rel_refl].
+  destruct (on && negb (nmem sid (r_members r))); [apply rel_refl|rel_ns].
+Qed.
+
+Lemma rel_delete_member xs h m : Rel xs h (fst (delete_member h m)).
+Proof.
+  unfold delete_member. destruct (get_sess h m) as [s|]; [|apply rel_refl].
+  destruct (leave_room h m true) as [h2 o1] eqn:Hl.
+  assert (R2 : Rel xs h h2) by (rewrite (fst_eq _ _ _ Hl); apply rel_leave_room).
+  destruct (is_virtual (s_kind s)); [exact R2|]. destruct (s_conn s); [|exact R2].
+  destruct (send_session h2 m (SRoom 0)) as [h3 o2] eqn:H3. cbn [fst]. rewrite (fst_eq _ _ _ H3).
+  eapply rel_trans; [exact R2|apply rel_send_session].
+Qed.
+
+Lemma rel_room_request xs h k q : Rel xs h (fst (room_request h k q)).
+Proof.
+  unfold room_request. destruct (room_of h k) as [r|]; [|apply rel_refl].
+  destruct q as [|users rs|tag|l|l|ic|tag].
+  - match goal with |- context [fold_sessions h ?int ?f] => destruct (fold_sessions h int f) as [h0 o0] eqn:H0 end.
+    assert (R0 : Rel xs h h0).
+    { rewrite (fst_eq _ _ _ H0). apply rel_fold_sessions; [apply rel_refl|]. intros. apply rel_send_session. }
+    match goal with |- context [fold_sessions ?h1 ?mm delete_member] => destruct (fold_sessions h1 mm delete_member) as [h9 o9] eqn:H9 end.
+    cbn [fst]. rewrite (fst_eq _ _ _ H9). apply rel_fold_sessions; [|intros; apply rel_delete_member].
+    eapply rel_trans; [exact R0|rel_ns].
+  - apply rel_refl.
+  - destruct (N.eqb (r_props r) (tag + 1)); [apply rel_refl|rel_ns].
+  - rel_ns.
+  - match goal with |- context [fold_left ?f l (h, [])] => set (g := f) end.
+    assert (G : forall acc, Rel xs h (fst acc) -> Rel xs h (fst (fold_left g l acc))).
+    { induction l as [|u l IH]; intros acc Hacc; cbn [fold_left]; [exact Hacc|]. apply IH.
+      destruct acc as [hh oo]. cbn [fst] in Hacc. unfold g. destruct u as [[i icv] pm].
+      destruct i as [n|sid|kk|n]; try exact Hacc.
+      destruct (get_sess hh sid); [|exact Hacc].
+      destruct (N.testbit icv 0); [cbn [fst]; eapply rel_trans; [exact Hacc|apply rel_set_incall]|].
+      destruct (leave_call (set_incall hh k sid false) sid) as [h2 o2] eqn:H2. cbn [fst].
+      rewrite (fst_eq _ _ _ H2). eapply rel_trans; [exact Hacc|]. eapply rel_trans; [apply rel_set_incall|apply rel_leave_call]. }
+    specialize (G (h, []) (rel_refl xs h)).
+    destruct (fold_left g l (h, [])) as [h1 outs]. cbn [fst] in *. eapply rel_trans; [exact G|apply rel_publish].
+  - destruct (N.testbit ic 0).
+    + match goal with |- context [filter ?f (filter ?g0 (r_members r))] => destruct (filter f (filter g0 (r_members r))) end; [apply rel_refl|].
+      apply rel_fold_sessions; [|intros; apply rel_send_session].
+      apply rel_fold_left; [apply rel_refl|]. intros. apply rel_set_incall.
+    + destruct (r_incall r); [apply rel_refl|].
+      match goal with |- context [fold_sessions ?h1 ?lv leave_call] => destruct (fold_sessions h1 lv leave_call) as [h2 o1] eqn:H2 end.
+      assert (R2 : Rel xs h h2).
+      { rewrite (fst_eq _ _ _ H2). apply rel_fold_sessions; [rel_ns|]. intros. apply rel_leave_call. }
+      match goal with |- context [fold_sessions h2 ?lv ?f] => destruct (fold_sessions h2 lv f) as [h3 o2] eqn:H3 end.
+      cbn [fst]. rewrite (fst_eq _ _ _ H3). apply rel_fold_sessions; [exact R2|]. intros. apply rel_send_session.
+  - rel_ns.
 Qed.
